@@ -169,6 +169,17 @@ func (c *Ctx) Finish(level string, cov Coverage) int {
 	sort.Strings(stale)
 	cov["known_findings_observed"] = knownSeen
 	cov["known_findings_not_observed_this_run"] = stale
+	if c.Assumes == nil {
+		c.Assumes = []string{"runtime semantics are those of /verif/runtimes/<lang>; bounds as stated in coverage.rule"}
+	}
+	if knownSeen == nil {
+		knownSeen = []string{}
+	}
+	if stale == nil {
+		stale = []string{}
+	}
+	cov["known_findings_observed"] = knownSeen
+	cov["known_findings_not_observed_this_run"] = stale
 	ev := map[string]any{
 		"property_id": c.ID,
 		"tier":        c.Tier,
